@@ -17,6 +17,7 @@ Per tool:
 Anything outside the recognised shapes is returned as a problem string (and nothing is guessed).
 `parse_all(repo)` returns the same tables as python data for the runner."""
 import os, re, sys
+SERVES = ("C20",)   # properties whose check reports this translator's problems (lib/gencoq.py, core.Check.proofs)
 
 TOOLS = [("om_assemble", "apps/assemble.cpp"), ("om_gain", "apps/gain.cpp"), ("om_minverser", "apps/minverser.cpp"),
          ("om_forward", "apps/forward.cpp"), ("om_matrix_convert", "apps/tools/matrix_convert.cpp"),
